@@ -38,6 +38,7 @@ Notes: use --offline. The lib is `mqtt_proto`; see src/lib.rs, src/common, src/v
 '''
 
 HINTS = {
+ 4: "Prefer, this round, VALUE-LEVEL slips that keep every length and every control-flow shape intact: two same-typed fields or values swapped on one side only (encoder or decoder); a value written from / decoded into the wrong but type-compatible field; a constant that is almost right (one bit, one value, one enum variant off); an operation applied in the wrong order; a comparison with the wrong operand; a change in a rarely examined impl (Hash, Ord, PartialEq, Display, Default, From/TryFrom conversions, Clone, a `new_*` convenience constructor, a public helper such as total_len/header_len) that the property still depends on; a change that affects only one protocol family or one packet type of several siblings. Also welcome: changes whose effect depends on *two* features being combined (e.g. a will with properties AND a user name).",
  3: "Prefer, this round: (i) a change where the code *looks* locally more defensive or more spec-conformant than before (an added check, a clamp, a cache, a fast path, a helper reuse) but breaks the property for a corner; (ii) a change in a place that is NOT one of the listed anchor mechanisms but that the property still depends on (a trait impl, a Default, a From conversion, a constant, a macro arm, a sibling packet type, the other protocol family); (iii) a change that keeps every individual function's contract plausible but makes two of them disagree.",
 }
 
@@ -47,7 +48,7 @@ YOUR TASK: produce FOUR independent BEHAVIOUR-PRESERVING refactorings of the cod
 Each refactoring must be the kind of edit a maintainer makes without intending any behaviour change, and must in fact not change the observable behaviour of any public API for any input (same results, same errors with the same payloads, same bytes, same panics-or-not, same number of bytes read from / written to the transport and in the same pattern of calls as far as a caller can observe). Do NOT change public signatures. Each refactoring should touch a handful of lines (3-40) and the four should touch different functions where possible.
 Refactorings already done in earlier rounds -- do different ones (different functions and/or different kinds of transformation):
 {avoid}
-Ideas for this round (pick varied ones; be a little bolder than cosmetic edits, but stay strictly equivalent): extracting a private helper function or closure used from two places; inlining a private helper at its call sites; replacing an `if`/`else if` chain by a `match` (or the reverse), or a `match` with guards by nested ifs; early-return style vs. single-exit style; replacing an explicit loop by iterator adaptors (`try_for_each`, `fold`, `take_while`) or the reverse where exactly equivalent; introducing a small private struct/tuple to carry two locals; replacing a bool flag by an Option or enum local; changing integer types of *locals* where provably lossless; splitting a compound condition into nested ifs; replacing `a.checked_sub(b).ok_or(E)?` by an explicit comparison and subtraction or the reverse; `matches!` vs match; `Option::filter/then/then_some`; `let else`; using `core::mem::take/replace`; reordering match arms that are disjoint; moving a constant into an associated const; using a `const fn`; merging duplicated v3/v5 code through a private generic helper within one module (only if no behaviour changes).
+Ideas for this round (pick varied ones; be bolder than cosmetic edits, but stay strictly equivalent; prefer kinds of transformation NOT in the list above): converting between iterator chains and explicit loops; introducing or removing small private types / traits / generic helpers; moving logic between a macro and a function for one instantiation; changing how a state machine is spelled (match on a tuple, nested matches, early returns, labelled breaks); replacing arithmetic by an equivalent form (shifts/masks vs division/modulo, `a - b` after an explicit comparison vs checked_sub, saturating forms that cannot saturate); replacing `Option`/`Result` combinators by pattern matching and back; splitting or merging `impl` blocks; reordering items; turning constants into associated consts / const fns / statics of the same value; using `core::mem::take` / `replace` / `swap`; slices vs arrays vs `Vec` for fixed small buffers where the reads/writes stay identical; extracting a private helper function or closure used from two places; inlining a private helper at its call sites; replacing an `if`/`else if` chain by a `match` (or the reverse), or a `match` with guards by nested ifs; early-return style vs. single-exit style; replacing an explicit loop by iterator adaptors (`try_for_each`, `fold`, `take_while`) or the reverse where exactly equivalent; introducing a small private struct/tuple to carry two locals; replacing a bool flag by an Option or enum local; changing integer types of *locals* where provably lossless; splitting a compound condition into nested ifs; replacing `a.checked_sub(b).ok_or(E)?` by an explicit comparison and subtraction or the reverse; `matches!` vs match; `Option::filter/then/then_some`; `let else`; using `core::mem::take/replace`; reordering match arms that are disjoint; moving a constant into an associated const; using a `const fn`; merging duplicated v3/v5 code through a private generic helper within one module (only if no behaviour changes).
 
 For EACH refactoring n in {{1,2,3,4}} deliver under {wt}/out/{tag}-n/ :
   - patch.diff : `git diff` of the change only (src/ files; must apply with `git apply` on a clean checkout of HEAD).
